@@ -36,6 +36,7 @@ type vnode struct {
 	kind  int
 	loop  *loopInfo // for nkUnwind / nkInvStep
 	from  *ssa.BasicBlock // source of the back edge (nkInvStep)
+	uid   int
 	preds []*vedge
 	succs []*vedge
 	out   *State
@@ -75,6 +76,7 @@ type inst struct {
 	hdrState map[*loopInfo]*hdrSnap
 	letVals  map[string]Val
 	loopFrames map[*loopInfo]map[string]*region
+	split    bool // duplicate join blocks per path instead of merging states
 	at       *ssa.BasicBlock // evaluation point for name resolution
 	cenvBase *cenv
 	panicOK  bool
@@ -118,8 +120,8 @@ func ctxKey(iters map[*loopInfo]int) string {
 	return strings.Join(ps, ",")
 }
 
-func (in *inst) node(b *ssa.BasicBlock, iters map[*loopInfo]int, kind int, l *loopInfo, from *ssa.BasicBlock) (*vnode, bool) {
-	key := fmt.Sprintf("%d/%s/%d", b.Index, ctxKey(iters), kind)
+func (in *inst) node(b *ssa.BasicBlock, iters map[*loopInfo]int, kind int, l *loopInfo, from *ssa.BasicBlock, path string) (*vnode, bool) {
+	key := fmt.Sprintf("%d/%s/%d%s", b.Index, ctxKey(iters), kind, path)
 	if l != nil {
 		key += fmt.Sprintf("/L%d", l.ord)
 	}
@@ -129,7 +131,7 @@ func (in *inst) node(b *ssa.BasicBlock, iters map[*loopInfo]int, kind int, l *lo
 	if n, ok := in.nodes[key]; ok {
 		return n, false
 	}
-	n := &vnode{blk: b, ctx: ctxKey(iters), iters: iters, kind: kind, loop: l, from: from}
+	n := &vnode{blk: b, ctx: ctxKey(iters), iters: iters, kind: kind, loop: l, from: from, uid: len(in.nodes)}
 	in.nodes[key] = n
 	return n, true
 }
@@ -151,7 +153,12 @@ func (in *inst) buildGraph() {
 		}
 	}
 	in.nodes = map[string]*vnode{}
-	entry, _ := in.node(in.fn.Blocks[0], map[*loopInfo]int{}, nkNormal, nil, nil)
+	if in.split {
+		for _, b := range in.fn.Blocks {
+			in.dup[b] = true
+		}
+	}
+	entry, _ := in.node(in.fn.Blocks[0], map[*loopInfo]int{}, nkNormal, nil, nil, "")
 	var post []*vnode
 	visited := map[*vnode]bool{}
 	var dfs func(n *vnode)
@@ -189,7 +196,12 @@ func (in *inst) buildGraph() {
 				if kind == nkNormal && !smallReturnBlock(s) {
 					from = nil
 				}
-				t, _ := in.node(s, iters, kind, lp, from)
+				path := ""
+				if in.split && hdr[s] == nil && len(s.Preds) > 1 {
+					// path splitting: join blocks outside loop headers are duplicated per incoming path
+					path = fmt.Sprintf("/path%d", n.uid)
+				}
+				t, _ := in.node(s, iters, kind, lp, from, path)
 				e := &vedge{from: n, to: t, succIdx: si}
 				n.succs = append(n.succs, e)
 				t.preds = append(t.preds, e)
@@ -558,6 +570,7 @@ func (in *inst) execInstr(n *vnode, st *State, ins ssa.Instruction) {
 		if localOnly(x) {
 			// the cell never escapes this function: calls with unknown effects cannot reach it
 			fv.localRoots = append(fv.localRoots, loc)
+			fv.localRootTag = append(fv.localRootTag, fv.curTag)
 		}
 		in.setVal(n, x, av)
 	case *ssa.FieldAddr:
